@@ -323,6 +323,8 @@ PIPE_VECTORS = [
     ["version"] + NONE + ["1.2.3", "--output-prefix", "v"],
     ["flow"] + NONE + ["1.2.3", "--bumped-branch", "main", "--output-prefix", "release-"],
     ["version"] + NONE + ["1.2.3", "--custom", "[" * 40 + "]" * 40],
+    ["version"] + NONE + ["1.2.3", "--custom", "{\"k\":" * 20 + "\"leaf\"" + "}" * 20],
+    ["version"] + NONE + ["1.2.3", "--custom", "{\"k\":" * 55 + "[[1]]" + "}" * 55],
     ["version"] + NONE + ["1.2.3", "--custom", "[" * 100 + "]" * 100],
     ["version"] + NONE + ["1.2.3", "--custom", "{\"a\":" * 70 + "1" + "}" * 70],
     ["render", "1.2.3-epoch.0"],
@@ -384,7 +386,17 @@ def run_pipe(tier="quick", seed=0):
             if rc2 != 0:
                 cls = "emitted-object-rejected"
                 if b"recursion limit" in err2:
-                    cls = "custom-json-nested-deeper-than-the-reader"
+                    # the recorded finding is about 63 and more levels (ron's reader stops at 128 RON levels); a shallower document that is refused is not it
+                    depth = 0
+                    if "--custom" in argv:
+                        cur = 0
+                        for ch in argv[argv.index("--custom") + 1]:
+                            if ch in "[{":
+                                cur += 1
+                                depth = max(depth, cur)
+                            elif ch in "]}":
+                                cur -= 1
+                    cls = "custom-json-nested-deeper-than-the-reader" if depth >= 63 else "custom-json-of-moderate-depth-rejected"
                 bad(cls, f"`zerv {show} --output-format zerv` emits an object that `zerv version --source stdin` rejects: {err2.decode('utf-8', 'replace').strip()[:160]!r}")
                 continue
             if mask(again) != mask(obj):
